@@ -128,6 +128,9 @@ func TestC10_P_Deterministic(t *testing.T) {
 				return func(st *Store) (cid.Cid, uint64, error) { return c02Build(st, order, how, fanout) }
 			}
 			run("sorted", build(es))
+			if rapid.IntRange(0, 2).Draw(t, "intervene") == 0 {
+				must(t, "intervening builds", func() { otherBuilds(salt) }) // another name-hash function, other fanouts
+			}
 			run("again", build(es))
 			perm := rapid.Permutation(es).Draw(t, "perm")
 			identity := true
@@ -218,6 +221,9 @@ func TestC10_R_InterveningBuilds(t *testing.T) {
 	first := map[key]buildResult{}
 	order := []int{8, 16, 1024, 8, 256, 16, 64, 512, 32, 8, 128, 1024, 16, 256}
 	for round, f := range order {
+		if round%3 == 1 {
+			otherBuilds(round) // sharded builds with sha2-256 as the name hash in between
+		}
 		st := NewStore()
 		c, sz, err := buildSharded(st, es, f)
 		if err != nil {
